@@ -444,6 +444,10 @@ class C19(Prop):
         return None
 
     def shrink_candidates(self, case):
+        # sessions are expensive to re-run: a bounded number of candidates per round
+        return itertools.islice(self._shrink_all(case), 40)
+
+    def _shrink_all(self, case):
         for i in range(len(case["requests"])):
             yield dict(case, requests=case["requests"][:i] + case["requests"][i + 1:])
         for t, ops in case["bodies"].items():
